@@ -6,6 +6,7 @@ package sse
 // values come from the replay vector named by $VERIF_REPLAY.
 
 import (
+	"runtime"
 	"sync"
 	"sync/atomic"
 	"encoding/json"
@@ -28,6 +29,7 @@ type verifReplayFile struct {
 	Label    string             `json:"label"`
 	Params   map[string]int     `json:"params"`
 	Values   []verifReplayValue `json:"values"`
+	Schedule []verifStep        `json:"schedule"`
 }
 
 var (
@@ -189,34 +191,234 @@ func verifLastNow() int64 { return 0 }
 // ---- goroutines ----
 // Under the executor verifGo spawns an interpreted thread and verifRunThreads
 // runs the scheduler (every interleaving of visible operations is explored).
-// Natively they are real goroutines and a wait with a deadline.
+// Natively they are real goroutines. A replay vector that carries a schedule is
+// replayed *schedule-directed*: joe.go is overlaid with a copy in which every
+// visible operation is preceded by verifYield(), and a controller releases the
+// goroutines in the recorded order (a select that natively takes another ready
+// case than the recorded one is a deviation: the attempt is repeated). Without
+// a schedule, or when every attempt deviates, the harness falls back to stress.
+type verifStep struct {
+	T []int `json:"t"`
+	C []int `json:"c"`
+}
+
 var (
 	verifWG      sync.WaitGroup
 	verifRunning int64
+
+	vsMu       sync.Mutex
+	vsCond     = sync.NewCond(&vsMu)
+	vsGuided   bool
+	vsFree     bool
+	vsDeviated bool
+	vsIDs      = map[int64]int{}
+	vsNext     int
+	vsArrived  = map[int]bool{}
+	vsFinished = map[int]bool{}
+	vsReleased = map[int]int{}
+	vsExpect   = map[int]int{}
+	vsSteps    []verifStep
+	vsReason   string
 )
+
+func verifGoid() int64 {
+	var buf [64]byte
+	n := runtime.Stack(buf[:], false)
+	// "goroutine 123 [running]:"
+	var id int64
+	for _, c := range buf[len("goroutine "):n] {
+		if c < '0' || c > '9' {
+			break
+		}
+		id = id*10 + int64(c-'0')
+	}
+	return id
+}
+
+func verifSchedReset(steps []verifStep, guided bool) {
+	vsMu.Lock()
+	defer vsMu.Unlock()
+	vsGuided, vsFree, vsDeviated, vsReason = guided, !guided, false, ""
+	vsIDs, vsNext = map[int64]int{}, 0
+	vsArrived, vsFinished, vsReleased, vsExpect = map[int]bool{}, map[int]bool{}, map[int]int{}, map[int]int{}
+	vsSteps = steps
+}
+
+// verifYield is called (by the instrumented copy of joe.go and by harness code)
+// right before a visible operation.
+func verifYield() {
+	vsMu.Lock()
+	defer vsMu.Unlock()
+	if !vsGuided || vsFree {
+		return
+	}
+	id := vsIDs[verifGoid()]
+	if id == 0 {
+		return
+	}
+	vsArrived[id] = true
+	vsCond.Broadcast()
+	for vsReleased[id] == 0 && !vsFree {
+		vsCond.Wait()
+	}
+	if vsReleased[id] > 0 {
+		vsReleased[id]--
+	}
+	vsArrived[id] = false
+}
+
+// verifTook reports which case a select took.
+func verifTook(c int) {
+	vsMu.Lock()
+	defer vsMu.Unlock()
+	if !vsGuided || vsFree {
+		return
+	}
+	id := vsIDs[verifGoid()]
+	if want, ok := vsExpect[id]; ok && id != 0 {
+		delete(vsExpect, id)
+		if want != c {
+			vsReason = fmt.Sprintf("thread %d took select case %d, recorded %d", id, c, want)
+			vsDeviated, vsFree = true, true
+			vsCond.Broadcast()
+		}
+	}
+}
 
 func verifGo(f func()) {
 	verifWG.Add(1)
 	atomic.AddInt64(&verifRunning, 1)
-	go func() {
+	verifGoNative(func() {
 		defer func() {
 			atomic.AddInt64(&verifRunning, -1)
 			verifWG.Done()
 		}()
 		f()
+	})
+}
+
+// verifGoNative starts a goroutine with the next thread id (the executor numbers
+// threads in creation order) and, when a schedule is being followed, waits until
+// it is parked at its first visible operation - as the executor does.
+func verifGoNative(f func()) {
+	vsMu.Lock()
+	vsNext++
+	id := vsNext
+	guided := vsGuided && !vsFree
+	vsMu.Unlock()
+	go func() {
+		vsMu.Lock()
+		vsIDs[verifGoid()] = id
+		vsMu.Unlock()
+		defer func() {
+			vsMu.Lock()
+			vsFinished[id] = true
+			vsCond.Broadcast()
+			vsMu.Unlock()
+		}()
+		f()
 	}()
+	if guided {
+		vsMu.Lock()
+		deadline := time.Now().Add(time.Second)
+		for !vsArrived[id] && !vsFinished[id] && !vsFree && time.Now().Before(deadline) {
+			verifCondWait(50 * time.Millisecond)
+		}
+		vsMu.Unlock()
+	}
+}
+
+// verifCondWait waits on vsCond for at most d (vsMu held).
+func verifCondWait(d time.Duration) {
+	t := time.AfterFunc(d, func() { vsMu.Lock(); vsCond.Broadcast(); vsMu.Unlock() })
+	vsCond.Wait()
+	t.Stop()
+}
+
+func verifController() {
+	vsMu.Lock()
+	defer vsMu.Unlock()
+	for _, st := range vsSteps {
+		if vsFree {
+			return
+		}
+		deadline := time.Now().Add(500 * time.Millisecond)
+		all := func() bool {
+			for _, id := range st.T {
+				if !vsArrived[id] {
+					return false
+				}
+			}
+			return true
+		}
+		for !all() && !vsFree && time.Now().Before(deadline) {
+			verifCondWait(20 * time.Millisecond)
+		}
+		if !all() {
+			vsReason = fmt.Sprintf("step %v: not all goroutines arrived (arrived=%v finished=%v)", st, vsArrived, vsFinished)
+			vsDeviated, vsFree = true, true
+			vsCond.Broadcast()
+			return
+		}
+		for k, id := range st.T {
+			if k < len(st.C) && st.C[k] != -1 {
+				vsExpect[id] = st.C[k]
+			}
+			vsReleased[id]++
+			vsArrived[id] = false
+		}
+		vsCond.Broadcast()
+		// let the released goroutines get to their next visible operation (or finish)
+		settle := time.Now().Add(20 * time.Millisecond)
+		settled := func() bool {
+			for _, id := range st.T {
+				if !vsArrived[id] && !vsFinished[id] {
+					return false
+				}
+			}
+			return true
+		}
+		for !settled() && !vsFree && time.Now().Before(settle) {
+			verifCondWait(2 * time.Millisecond)
+		}
+	}
+	// the recorded schedule is exhausted: everything else runs freely
+	vsFree = true
+	vsCond.Broadcast()
 }
 
 // verifRunThreads returns the number of harness goroutines that did not finish.
 func verifRunThreads(maxSteps int) int {
+	vsMu.Lock()
+	guided := vsGuided && !vsFree
+	vsMu.Unlock()
+	if guided {
+		go verifController()
+	}
 	done := make(chan struct{})
 	go func() { verifWG.Wait(); close(done) }()
 	select {
 	case <-done:
 		return 0
 	case <-time.After(2 * time.Second):
+		vsMu.Lock()
+		vsFree = true
+		vsCond.Broadcast()
+		vsMu.Unlock()
 		return int(atomic.LoadInt64(&verifRunning))
 	}
+}
+
+func verifDeviated() bool {
+	vsMu.Lock()
+	defer vsMu.Unlock()
+	return vsDeviated
+}
+
+func verifDeviationReason() string {
+	vsMu.Lock()
+	defer vsMu.Unlock()
+	return vsReason
 }
 
 // verifCrashed: an unrecovered panic in an interpreted goroutine (natively the process dies instead).
